@@ -50,6 +50,18 @@ EVAL_PROGRAMS = {
         {"main.oal": "let inner x = { 'i x };\nlet outer x = { 'o x, 'in inner num };\nres / on get -> <outer str>;\n"},
         [("paths./.get.responses.default.content.application/json.schema.properties.o.type", "string"),
          ("paths./.get.responses.default.content.application/json.schema.properties.in.properties.i.type", "number")], 0),
+    "forwarded-parameters-with-clashing-names": (
+        {"main.oal": "let pair x y = { 'first x, 'second y };\nlet wrap x = pair int x;\nlet flip y x = pair y x;\nlet tagged x = pair uri x;\n"
+                     "res / on get -> <wrap str> :: <status=404, flip bool num> :: <status=500, tagged int>;\n"},
+        [("paths./.get.responses.default.content.application/json.schema.properties.first.type", "integer"),
+         ("paths./.get.responses.default.content.application/json.schema.properties.second.type", "string"),
+         ("paths./.get.responses.404.content.application/json.schema.properties.first.type", "boolean"),
+         ("paths./.get.responses.404.content.application/json.schema.properties.second.type", "number"),
+         ("paths./.get.responses.500.content.application/json.schema.properties.first.format", "uri-reference"),
+         ("paths./.get.responses.500.content.application/json.schema.properties.second.type", "integer")], 0),
+    "rec-binder-forwarded-into-a-function-with-the-same-parameter-name": (
+        {"main.oal": "let both a r = { 'a a, 'r r };\nlet t = rec a { 'next? a, 'pair both num a };\nres / on get -> <t>;\n"},
+        [("paths./.get.responses.default.content.application/json.schema.$ref", "~#/components/schemas/hash-")], 0),
     "unbound-identifier-is-an-error": ({"main.oal": "let a = { 'b nope };\nres / on get -> <a>;\n"}, [], 1),
     "unbound-qualified-identifier-is-an-error": ({"main.oal": 'use "m.oal" as m;\nres / on get -> <m.nope>;\n', "m.oal": "let t = str;\n"}, [], 1),
     "parameter-is-not-visible-outside-its-function": ({"main.oal": "let f x = [x];\nlet a = x;\nres / on get -> <f a>;\n"}, [], 1),
@@ -106,6 +118,42 @@ def run_eval_programs(rdir):
                 if not ok:
                     probs.append("%s: %s is %r, the binder in scope gives %r" % (name, path, got, want))
     return probs, detail
+
+
+def application_lemmas(o, M, E, f_app, structural):
+    """eval_application: arguments are evaluated in the caller's context and bound positionally; the body runs in the
+    new scope, which is popped afterwards (shared with C05: single-use functions and renaming are free only then)."""
+    ex = mirlib.executor([M], max_paths=6000)
+    n_body = n_arg = 0
+    for p in ex.run(f_app, arg_names=["ctx", "app", "ann"]):
+        calls = p.calls()
+        names = [e[1] for e in calls]
+        if p.kind == "backedge" and "HashMap::insert" in names:
+            n_arg += 1
+            ins = [e for e in calls if e[1] == "HashMap::insert"][-1]
+            et = [e for e in calls if e[1] == "eval_terminal"]
+            nx = [e for e in calls if e[1].endswith("Iterator::next")][-1]
+            pair = ms.proj(ms.proj(nx[3], ("v", "Some"), E), ("f", 0), E)
+            okz = len(et) == 1 and et[0][2][0] == ("sym", "ctx") and any(t == ms.proj(pair, ("f", 1), E) for t in ms.subterms(et[0][2][1])) and \
+                "Binding::ident" in ms.show(ins[2][1]) and any(t == ms.proj(pair, ("f", 0), E) for t in ms.subterms(ins[2][1])) and \
+                any(t == et[0][3] for t in ms.subterms(ins[2][2])) and "Context::push_scope" not in names
+            structural("eval_application: each argument is evaluated in the caller's context (before any scope is pushed) and bound to the parameter at the same position", okz)
+            zp = [e for e in calls if e[1].endswith("Iterator::zip")]
+            structural("eval_application: parameters and arguments are paired in order (bindings zipped with arguments)",
+                       len(zp) == 1 and "Declaration::bindings" in ms.show(zp[0][2][0]) and ms.show(zp[0][2][1]) == "Application::arguments(&app)")
+        if p.kind == "return" and "Context::push_scope" in names:
+            ip, ib = names.index("Context::push_scope"), [i for i, nme in enumerate(names) if nme == "eval_any"]
+            ipop = [i for i, nme in enumerate(names) if nme == "Context::pop_scope"]
+            d = ms.show(p.ret)[:10]
+            if ib:
+                n_body += 1
+                okb = len(ib) == 1 and ip < ib[0] and "Declaration::rhs" in ms.show(calls[ib[0]][2][1]) and not [i for i, nme in enumerate(names) if nme == "eval_terminal" and i > ip]
+                structural("eval_application: the body is evaluated after the new scope is pushed, and nothing of the caller is evaluated inside it", okb)
+                if d.startswith("Result::Ok"):
+                    structural("eval_application: the scope is popped again once the body is evaluated", len(ipop) == 1 and ipop[0] > ib[0])
+    if n_body == 0 or n_arg == 0:
+        o.inconc("eval_application: expected an argument iteration and a body path (%d/%d)" % (n_arg, n_body))
+    mirlib.check_translator(o, ex, "eval_application")
 
 
 def check():
@@ -489,37 +537,7 @@ def check():
     for p in ex.run(f_pop, arg_names=["self"]):
         if p.kind == "return":
             structural("Context::pop_scope: pops exactly the top scope", [e[1] for e in p.calls()] == ["Vec::pop"])
-    ex = mirlib.executor([M], max_paths=6000)
-    n_body = n_arg = 0
-    for p in ex.run(f_app, arg_names=["ctx", "app", "ann"]):
-        calls = p.calls()
-        names = [e[1] for e in calls]
-        if p.kind == "backedge" and "HashMap::insert" in names:
-            n_arg += 1
-            ins = [e for e in calls if e[1] == "HashMap::insert"][-1]
-            et = [e for e in calls if e[1] == "eval_terminal"]
-            nx = [e for e in calls if e[1].endswith("Iterator::next")][-1]
-            pair = ms.proj(ms.proj(nx[3], ("v", "Some"), E), ("f", 0), E)
-            okz = len(et) == 1 and et[0][2][0] == ("sym", "ctx") and any(t == ms.proj(pair, ("f", 1), E) for t in ms.subterms(et[0][2][1])) and \
-                "Binding::ident" in ms.show(ins[2][1]) and any(t == ms.proj(pair, ("f", 0), E) for t in ms.subterms(ins[2][1])) and \
-                any(t == et[0][3] for t in ms.subterms(ins[2][2])) and "Context::push_scope" not in names
-            structural("eval_application: each argument is evaluated in the caller's context (before any scope is pushed) and bound to the parameter at the same position", okz)
-            zp = [e for e in calls if e[1].endswith("Iterator::zip")]
-            structural("eval_application: parameters and arguments are paired in order (bindings zipped with arguments)",
-                       len(zp) == 1 and "Declaration::bindings" in ms.show(zp[0][2][0]) and ms.show(zp[0][2][1]) == "Application::arguments(&app)")
-        if p.kind == "return" and "Context::push_scope" in names:
-            ip, ib = names.index("Context::push_scope"), [i for i, nme in enumerate(names) if nme == "eval_any"]
-            ipop = [i for i, nme in enumerate(names) if nme == "Context::pop_scope"]
-            d = ms.show(p.ret)[:10]
-            if ib:
-                n_body += 1
-                okb = len(ib) == 1 and ip < ib[0] and "Declaration::rhs" in ms.show(calls[ib[0]][2][1]) and not [i for i, nme in enumerate(names) if nme == "eval_terminal" and i > ip]
-                structural("eval_application: the body is evaluated after the new scope is pushed, and nothing of the caller is evaluated inside it", okb)
-                if d.startswith("Result::Ok"):
-                    structural("eval_application: the scope is popped again once the body is evaluated", len(ipop) == 1 and ipop[0] > ib[0])
-    if n_body == 0 or n_arg == 0:
-        o.inconc("eval_application: expected an argument iteration and a body path (%d/%d)" % (n_arg, n_body))
-    mirlib.check_translator(o, ex, "eval_application")
+    application_lemmas(o, M, E, f_app, structural)
     ex = mirlib.executor([M])
     for p in ex.run(f_rec, arg_names=["ctx", "rec", "ann"]):
         if p.kind != "return":
